@@ -178,6 +178,22 @@ def _pooled_protocol(ex, st, post, result):
         # both passes use the SAME stash dictionary; the first starts at 0, the second continues where the first stopped
         goal = z3.And(goal, z3.BoolVal(a0[1] is a1[1] and a0[2] is a1[2]), to_int(a0[0]) == 0,
                       to_int(a1[0]) == gets[0][1].result.length())
+    # C15 "never attributed to another item": the queues this call reads are its own.  A pool object may be used again after a call
+    # was aborted (raise mode, shutdown(force=True)); items of that call which are still running deliver (index, value) later -
+    # into queues that a later call must not read (S42)
+    init = T.evs(st, '_init_pool', 'ThreadPool._init_pool')
+    made = [(i, e) for i, e in T.evs(st, 'Queue')]
+    h = st.heap[post.env['self'].ref]
+    tq, rq = h['task_queue'], h['result_queue']
+    own = len(made) == 2 and all(i < init[0][0] for i, e in made) and any(tq is m.result for j, m in made) \
+        and any(rq is m.result for j, m in made) and tq is not rq
+    if own:
+        # ... and they are the queues the call works with (the join that separates the two collection passes waits on this task queue)
+        own = all(e.recv is not None and hasattr(tq, 't') and e.recv.t.eq(tq.t) for j, e in joins)
+    yield ('call_has_queues_of_its_own', z3.BoolVal(bool(own)),
+           'pooled branch: task queue and result queue are created by this call (two new Queue objects assigned before the workers '
+           'are started; the tasks are put on that task queue): a result delivered late by an item of an earlier, aborted call on '
+           'the same pool object cannot be read as a result of this call')
     yield ('two_passes_share_stash_and_counter', goal,
            'pooled branch: collect what is available, task_queue.join() (all tasks done, so all results queued), collect the rest '
            'with the same stash dict and next_result = number of results handed out so far, then shut the pool down')
@@ -190,6 +206,7 @@ contract(A + 'ThreadPool.map_each', props=['C15'],
                    dict(requires=['self.pool_size >= 2'], ensures=[], must_fail=None, raises={'Exception': True})],
          opaque_spec={'func': {'raises': ['Exception'], 'pure': True}, 'exc_info': {'pure': True},
                       '_init_pool': {'pure': True}, 'put': {'pure': True}, 'join': {'pure': True}, 'shutdown': {'pure': True},
+                      'Queue': {'pure': True},
                       '_get_results': {'returns': 'list[opaque]', 'raises': ['Exception']}},
          opaque=['_init_pool', '_get_results', 'shutdown'],
          raises={'Exception': 'raise_exceptions'},
@@ -371,3 +388,29 @@ contract(A + 'ThreadPool.shutdown', props=['C15'],
          opaque=['_consume_queue'],
          loops={0: dict(inv=[], types={}, body_trace=[_one_sentinel])},
          trace=[_forced_drops_queues])
+
+
+# ---- module-level helpers: a pool sized by the NUMBER OF INPUTS (S43: len(args[0]) was the length of the first argument tuple) --------
+def _pool_sized_by_inputs(ex, st, post, result):
+    import z3
+    from pyvc.values import to_int
+    mk = [e for i, e in T.evs(st, 'ThreadPool')]
+    run = [e for i, e in T.evs(st, 'starmap', 'starcall', 'ThreadPool.starmap', 'ThreadPool.starcall')]
+    ok = len(mk) == 1 and len(mk[0].args) == 1 and len(run) == 1 and run[0].recv is not None and hasattr(mk[0].result, 't') \
+        and run[0].recv.t.eq(mk[0].result.t) and result is run[0].result and run[0].args[-1] is post.env['args']
+    g = z3.BoolVal(bool(ok))
+    if ok:
+        n = post.env['args'].length()
+        size = to_int(mk[0].args[0])
+        g = z3.And(g, z3.Or(size == n, z3.And(size < n, size >= 2)), size <= n)
+    yield ('pool_sized_by_number_of_inputs', g,
+           'the helper creates one pool with min(number of inputs, MAX) workers - for every input list, the empty one included - '
+           'and returns what that pool returns for the whole list')
+
+
+for _fn in ('starmap', 'starcall'):
+    contract(A + _fn, props=['C15'],
+             types=dict(func='opaque', args='list[opaque]'), returns='opaque', default_callee='opaque',
+             opaque_spec={'ThreadPool': {'pure': True}, 'starmap': {'pure': True}, 'starcall': {'pure': True}},
+             opaque=['ThreadPool'],
+             trace=[_pool_sized_by_inputs])
